@@ -308,7 +308,29 @@ def check(pid, tier="quick", base_seed=0, workers=None, n=None, wall_cap=None):
             path = write_replay(pid, key, spec, spec, v, base_seed, i, "")
         print("VIOLATION property=%s replay=%s" % (pid, path))
         print("  key=%s count=%d first_index=%d step=%s :: %s" % (key, len(by_key[key]), i, v["step"], v["msg"]))
-    extra = {"known_finding_hits": n_known}
+    # every listed open finding of this property is stated: one that this run's seeds did not reach is re-executed from its
+    # recorded replay file (and stated only if it still fails on the tree under test)
+    n_replayed = 0
+    for kf in known:
+        if kf.get("status") != "open" or kf.get("property") != pid or kf["id"] in printed_known or not kf.get("replay"):
+            continue
+        rpath = os.path.join(env.VERIF, kf["replay"])
+        try:
+            with open(rpath) as f:
+                rp = json.load(f)
+            r = run_spec(mod, dict(rp["spec"]))
+            hit = [x for x in r.violations if findings.match([kf], pid, x["key"]) is not None]
+        except Exception as e:  # a replay file that cannot be executed is reported, not hidden
+            print("NOTE: recorded replay %s of known finding %s could not be executed: %r" % (kf["replay"], kf["id"], e))
+            continue
+        if hit:
+            n_replayed += 1
+            printed_known.add(kf["id"])
+            print("KNOWN-FINDING: property=%s %s [%s; not reached by this run's seeds, reproduced from the recorded replay %s]"
+                  % (pid, kf["what"], hit[0]["key"], kf["replay"]))
+        else:
+            print("NOTE: known finding %s no longer occurs in its recorded replay %s" % (kf["id"], kf["replay"]))
+    extra = {"known_finding_hits": n_known, "known_findings_reproduced_from_replay": n_replayed}
     evidence(pid, mod, tier, base_seed, total, n_new, extra)
     zero = [k for k in getattr(mod, "PROBES", []) if total["stats"].get(k, 0) == 0]
     for k in zero:
